@@ -41,7 +41,7 @@ def run(ctx, spec, rng):
 def make_pair(rng, r):
     d = int(rng.integers(2, 7))
     cplx = bool(r % 2)
-    cls = ["generic", "generic", "pure", "commuting", "orthogonal", "identical", "near", "mixed-pure", "basis-int", "generic"][r % 10]
+    cls = ["generic", "generic", "pure", "commuting", "orthogonal", "identical", "near", "mixed-pure", "basis-int", "nearly-pure"][r % 10]
     rk = lambda: int(rng.integers(1, d + 1))  # noqa: E731
     if cls == "basis-int":  # computational-basis projectors written the way users write them: integer dtype
         i, j = int(rng.integers(0, d)), int(rng.integers(0, d))
@@ -54,6 +54,14 @@ def make_pair(rng, r):
     elif cls == "pure":
         a, b = gen.unit(rng, d, cplx), gen.unit(rng, d, cplx)
         rho, sig = np.outer(a, a.conj()), np.outer(b, b.conj())
+    elif cls == "nearly-pure":
+        # genuinely mixed, but a rank estimate with an absolute cut-off takes it for pure: weight eps spread over the orthogonal complement
+        # (a "pure state" shortcut that drops a term of order sqrt(eps) shows at 1e-6 already for eps = 4e-9)
+        u = gen.haar(rng, d, real=not cplx)
+        eps = [4e-9, 1e-7, 1e-10, 1e-5, 1e-3][(r // 10) % 5]
+        lam = np.concatenate([[1 - eps], np.full(d - 1, eps / (d - 1))])
+        rho = ref.herm((u * lam) @ u.conj().T)
+        sig = gen.density(rng, d, d if r % 20 < 10 else rk(), cplx)
     elif cls == "mixed-pure":
         a = gen.unit(rng, d, cplx)
         rho, sig = np.outer(a, a.conj()), gen.density(rng, d, rk(), cplx)
